@@ -32,8 +32,15 @@ class Crash(BaseException):
 
 
 class Violation(BaseException):
-    def __init__(self, mon, msg, model=None):
-        self.mon, self.msg, self.model = mon, msg, model
+    def __init__(self, mon, msg, model=None, model_fn=None):
+        self.mon, self.msg, self._model, self.model_fn = mon, msg, model, model_fn
+
+    @property
+    def model(self):
+        if self._model is None and self.model_fn is not None:
+            self._model = self.model_fn()
+            self.model_fn = None
+        return self._model
 
 
 _OPS = {
@@ -751,7 +758,7 @@ class Explorer(BaseExplorer):
             return
         if f is False:
             self.concrete_checks += 1
-            raise Violation(mon, msg() if callable(msg) else msg, self._model(None))
+            raise Violation(mon, msg() if callable(msg) else msg, model_fn=lambda: self._model(None))
         self.obligations += 1
         neg = z3.Not(f)
         if self.smt_dump_every and self.obligations % self.smt_dump_every == 0 and len(self.smt_dump) < 40:
@@ -760,7 +767,7 @@ class Explorer(BaseExplorer):
             s2.add(neg)
             self.smt_dump.append(s2.to_smt2())
         if self._check(neg):
-            raise Violation(mon, msg() if callable(msg) else msg, self._model(neg))
+            raise Violation(mon, msg() if callable(msg) else msg, model_fn=lambda: self._model(neg))
         self.discharged += 1
 
     def feasible(self, cond):
@@ -850,7 +857,7 @@ class Explorer(BaseExplorer):
                     recs = None
                     if w is not None and self.record_fn is not None:
                         try:
-                            recs = self.record_fn(self.path_state.get("Q"), {k: Fraction(v) for k, v in w.items() if isinstance(v, str)})
+                            recs = self.record_fn(self.path_state.get("Q"), {k: Fraction(v) for k, v in w.items() if isinstance(v, str) and not k.startswith("__")})
                         except Exception:
                             recs = None
                     self.samples.append({
@@ -875,7 +882,7 @@ class Explorer(BaseExplorer):
     def _safe_witness(self):
         try:
             w = self._model(None, dyadic_timeout=1500)
-            return {k: v for k, v in (w or {}).items() if not k.startswith("__")}
+            return {k: v for k, v in (w or {}).items() if not k.startswith("__") or k == "__dyadic"}
         except BaseException:
             return None
 
